@@ -35,6 +35,23 @@ def lastfail_cases(tier, rng):
                         P.markers(c)
                         for seg in ("one", "line"):
                             cases.append(c.case(seg=seg, rng=rng) + "\tTAG=lastfail")
+            # the source fails inside the LAST chunk while the delivery is still running (the connection ends, or the read deadline
+            # expires): still one reply per recipient (written to a peer that may be gone), and the handler ends — no deadlock
+            for ending in ("eof", "to"):
+                for first in ((), (b"BDAT 3\r\nabc",)):
+                    c = g.Conv(dict(lmtp=1, lmtpsess=sess, rt=1))
+                    c.add(b"LHLO x\r\n", NS="ok"); c.add(b"MAIL FROM:<s@x>\r\n", MAIL="ok")
+                    for a in rcpts:
+                        c.add(b"RCPT TO:<" + a + b">\r\n", RCPT="ok")
+                    dec = dict(DATA=g.ddec(ret="prop"))
+                    for ch in first:
+                        c.add(ch, **dec); dec = {}
+                    c.add(b"BDAT 9 LAST\r\nabcd", **dec)
+                    f = c.case(seg="line").split("\t")
+                    if ending == "to":
+                        segs, end = f[3].split(";")
+                        f[3] = segs + ",TO," + "4e4f4f500d0a" + ";" + end
+                    cases.append("\t".join(f))
     return cases
 
 
